@@ -461,4 +461,71 @@ func ruleUpdateRecord(c *Ctx) {
 		})
 	}
 	c.check(okb, fnName(ins), "existing key is overwritten with the new hint and entry", c.P.pos(ins.Pos()), "", "Insert does not update an existing record with the hint and entry it was given")
+	// ... on EVERY path that found the key: from the edge on which Find reported the record, no return is
+	// reached without the update (directly or through the helper recognised above)
+	var findCall *ssa.Call
+	calls(ins, func(ci ssa.CallInstruction) {
+		if call, ok := ci.(*ssa.Call); ok && calleeIs(&call.Call, modPath, "BPTree", "Find") {
+			findCall = call
+		}
+	})
+	if findCall != nil {
+		isUpdate := func(in ssa.Instruction) bool {
+			cc := callOf(in)
+			if cc == nil {
+				return false
+			}
+			if calleeIs(cc, modPath, "Record", "UpdateRecord") {
+				return true
+			}
+			if h := cc.StaticCallee(); h != nil && c.P.inModule(h) && h.Blocks != nil {
+				// a helper all of whose paths update the record it is handed
+				var upd []ssa.Instruction
+				calls(h, func(cj ssa.CallInstruction) {
+					if calleeIs(cj.Common(), modPath, "Record", "UpdateRecord") {
+						upd = append(upd, cj)
+					}
+				})
+				if len(upd) > 0 {
+					anyRet := func(x ssa.Instruction) bool { _, ok := x.(*ssa.Return); return ok }
+					isU := func(x ssa.Instruction) bool {
+						for _, u := range upd {
+							if u == x {
+								return true
+							}
+						}
+						return false
+					}
+					return findPath(h, nil, anyRet, isU, nil) == nil
+				}
+			}
+			return false
+		}
+		// edges on which the found record is non-nil
+		var rec ssa.Value
+		for _, r := range *findCall.Referrers() {
+			if ex, ok := r.(*ssa.Extract); ok && ex.Index == 0 {
+				rec = ex
+			}
+		}
+		if rec != nil {
+			found := nilEdges(ins, false, func(x ssa.Value) bool { return sameValue(x, rec) })
+			var w []ssa.Instruction
+			for _, e := range found {
+				start := e.b.Succs[e.si]
+				if len(start.Instrs) == 0 {
+					continue
+				}
+				first := start.Instrs[0]
+				if isUpdate(first) {
+					continue
+				}
+				if p := findPath(ins, first, func(x ssa.Instruction) bool { _, ok := x.(*ssa.Return); return ok }, isUpdate, nil); p != nil {
+					w = p
+				}
+			}
+			c.check(len(found) > 0 && w == nil, fnName(ins), "every path that found the key overwrites the record", c.P.ipos(findCall), "",
+				"on some path Insert returns for an existing key without replacing the record's hint and entry together (for instance only the hint, or nothing, under a flag): the cached entry and the position on disk drift apart, so the two RAM index modes return different values", c.witnessOf(w)...)
+		}
+	}
 }
